@@ -97,6 +97,7 @@ type G struct {
 	extTypes []types.Type
 	errCount int
 	errIDs   map[string]int
+	globIDs  map[string]int
 }
 
 type Enc struct {
